@@ -12,6 +12,7 @@ import Sudachi.Model.Rewrite
 import Sudachi.Model.Subset
 import Sudachi.Model.Split
 import Sudachi.Model.Params
+import Sudachi.Model.LayersIO
 /-! Line protocol dispatcher: one case per line in, one answer per line out. -/
 namespace Driver
 
@@ -34,6 +35,7 @@ def answer (line : String) : String :=
     | "C11" => Subset.handle op rest
     | "C09" => Split.handle op rest
     | "C20" => Params.handle op rest
+    | "C12" => Layers.handle op rest
     | _ => "bad-op"
   | _ => "bad-op"
 
